@@ -68,3 +68,15 @@ func VerifNewEntry(status int, resp *HTTPResponse, createdAt, expiredAt int64) *
 	hc.expiredAt = expiredAt
 	return hc
 }
+
+// VerifAgeBy makes the entry look `seconds` older (shifts createdAt and a
+// non-zero expiredAt into the past): stands in for the passage of time in
+// choreographed schedules that must not yield the processor.
+func (hc *httpCache) VerifAgeBy(seconds int64) {
+	hc.mu.Lock()
+	defer hc.mu.Unlock()
+	hc.createdAt -= seconds
+	if hc.expiredAt != 0 {
+		hc.expiredAt -= seconds
+	}
+}
